@@ -126,7 +126,9 @@ impl Topo {
     }
 }
 
-const INSTS: &[&str] = &["web", "Web", "My Printer", "My.Dotted", "caf\u{e9}", "UPPER", "x (2)", "a-1"];
+// (non-ASCII upper-case letters only in names that are never spelled in another NON-ASCII letter
+//  case: the models fold ASCII letters only, the crate folds Unicode - `flip_case` is ASCII only)
+const INSTS: &[&str] = &["web", "Web", "My Printer", "My.Dotted", "caf\u{e9}", "UPPER", "x (2)", "a-1", "\u{c9}cole", "\u{41f}\u{440}\u{438}\u{43d}\u{442}\u{435}\u{440}"];
 const HOSTS: &[&str] = &["alpha.local.", "Beta.local.", "gamma-2.local.", "alpha.local.local."];
 const PROPS: &[&[(&str, Option<&str>)]] =
     &[&[], &[("path", Some("/"))], &[("Key", Some("v=1")), ("flag", None)], &[("a", Some(""))]];
